@@ -1,5 +1,5 @@
 (* C15 — spelling, case of operators and permitted whitespace do not change meaning. *)
-From Rules Require Import Spec Eval Refinement SemLaws Theorems Layout ParserProofs.
+From Rules Require Import Spec Eval Refinement SemLaws Theorems Layout ParserProofs SpellingProofs.
 Open Scope N_scope.
 
 (* spelling: the parser sees token kinds (and the text of names, literals, and/or only):
@@ -40,6 +40,15 @@ Theorem C15_spelling_table :
                                       | _ => false end) (snd e)) spellings = true.
 Proof. vm_compute. reflexivity. Qed.
 Print Assumptions C15_spelling_table.
+
+(* unbounded repetition (single tokens): a blank followed by ANY number of newlines is one SP,
+   a comma followed by ANY number of blanks is one COMMA *)
+Theorem C15_sp_any_newlines : forall n, lex g4_lexer_rules (32 :: repeat 10 n) = Some [(K_SP, 32 :: repeat 10 n)].
+Proof. exact sp_any_newlines. Qed.
+Theorem C15_comma_any_blanks : forall n, lex g4_lexer_rules (44 :: repeat 32 n) = Some [(K_COMMA, 44 :: repeat 32 n)].
+Proof. exact comma_any_blanks. Qed.
+Print Assumptions C15_sp_any_newlines.
+Print Assumptions C15_comma_any_blanks.
 
 (* `x EQ 1 \n AND...`: respelled variants of one rule give one outcome *)
 Example C15_example :
